@@ -215,7 +215,7 @@ func genRedefine(r *rand.Rand) redefCase {
 				m[it] = true
 			}
 			if m[it] {
-				for cc := 0; cc < len(types); cc++ {
+				for cc := 0; cc < nTypes; cc++ {
 					if implements(cc, it) {
 						m[cc] = true
 					}
@@ -232,7 +232,7 @@ func genRedefine(r *rand.Rand) redefCase {
 // filterOf expresses an allowed-type set with the library's combinators.
 func filterOf(allowed map[int]bool, k int) am.FilterFunc {
 	var fs []am.FilterFunc
-	for t := 0; t < len(types); t++ {
+	for t := 0; t < nTypes; t++ {
 		if allowed[t] {
 			fs = append(fs, am.FilterType(types[t]))
 		}
@@ -259,7 +259,7 @@ func allowedStr(m map[int]bool) string {
 		return "none"
 	}
 	s := "{"
-	for t := 0; t < len(types); t++ {
+	for t := 0; t < nTypes; t++ {
 		if m[t] {
 			s += typeName(t) + " "
 		}
@@ -354,6 +354,10 @@ func runC08(c *CaseCtx) (res CaseResult) {
 	reps := tierReps(c.Tier, 2, 4)
 	for k := 0; k < reps; k++ {
 		call := k
+		if r.Intn(4) == 0 && touchInputSet(in.W, in.Target.Func, 40+k, r) {
+			// an unrelated use wrote values into the target's own input value set
+			res.obs("redefines_after_writing_the_input_value_set", 1)
+		}
 		ropts := rc.opts(in, call, r)
 		if filtersAsDefaults {
 			ropts = in.AllArgs(call, r)
@@ -887,7 +891,6 @@ func runC09Concurrent(c *CaseCtx, r *rand.Rand) (res CaseResult) {
 	res.Sample = map[string]interface{}{"scenario": s.String(), "goroutines": G, "gomaxprocs": procs}
 	return res
 }
-
 
 // inputTypesFilter admits exactly the types of the scenario's supplied
 // values: a plan under this filter has to chain the converters.
